@@ -609,6 +609,17 @@ func (fr *frame) runLoop(li *LoopInfo) {
 		g := e.evalSpecBool(k, fr.specEnv(hst), hst, fr.entryCells())
 		c.assume(c.implies(hreach, g), "loop invariant")
 	}
+	// lemma instances and unfoldings at the loop header
+	lct := fr.spec
+	if lct == nil {
+		lct = e.prog.contractOf(fr.fi.Fn)
+	}
+	for _, us := range ls.Uses {
+		e.prog.useLemma(e, lct, us, fr.specEnv(hst), hreach)
+	}
+	for _, uf := range ls.Unfolds {
+		e.prog.unfoldSpec(e, uf, fr.specEnv(hst), hreach)
+	}
 	// decreases: snapshot
 	var decOld []Term
 	for _, d := range ls.Decreases {
